@@ -3,8 +3,10 @@
 package main
 
 import (
+	"fmt"
 	"net"
 	"strconv"
+	"strings"
 	"sync"
 	"time"
 )
@@ -107,6 +109,68 @@ func init() {
 					res += " wrong-source=" + hx(peers[0])
 				}
 				return res
+			}
+		}
+	})
+	// udpwire burst <n> <k>: n well-formed datagrams of different sizes back to back from the first socket, then the
+	// sentinel from the second one: every one of them must come out exactly once (Call-ID burst-<k>-<i>)
+	vReg("udpwire burst", func(a []string) string {
+		if vUDPWireH == nil {
+			return "no-transport"
+		}
+		n, _ := strconv.Atoi(a[0])
+		vUDPWireSeq++
+		sentinelID := "udpwire-sentinel-" + strconv.Itoa(vUDPWireSeq)
+		sentinel := "OPTIONS sip:s SIP/2.0\r\nCall-ID: " + sentinelID + "\r\nContent-Length: 0\r\n\r\n"
+		vUDPWireH.Lock()
+		vUDPWireH.got = nil
+		vUDPWireH.peers = nil
+		vUDPWireH.Unlock()
+		for i := 0; i < n; i++ {
+			body := make([]byte, 10+37*i%900)
+			for j := range body {
+				body[j] = byte('a' + (i+j)%26)
+			}
+			d := "MESSAGE sip:s SIP/2.0\r\nCall-ID: burst-" + a[1] + "-" + strconv.Itoa(i) + "\r\nContent-Length: " + strconv.Itoa(len(body)) + "\r\n\r\n" + string(body)
+			if _, err := vUDPWireSock.WriteToUDP([]byte(d), vUDPWireAddr); err != nil {
+				return "send-error"
+			}
+		}
+		if _, err := vUDPWireSen.WriteToUDP([]byte(sentinel), vUDPWireAddr); err != nil {
+			return "send-error"
+		}
+		deadline := time.After(8 * time.Second)
+		for {
+			select {
+			case <-vUDPWireH.ch:
+			case <-deadline:
+				return "stalled"
+			}
+			vUDPWireH.Lock()
+			got := append([]*Message(nil), vUDPWireH.got...)
+			vUDPWireH.Unlock()
+			if len(got) == 0 {
+				continue
+			}
+			if id, err := got[len(got)-1].GetHeaderValue("Call-ID"); err == nil && id == sentinelID {
+				count := map[string]int{}
+				for _, m := range got[:len(got)-1] {
+					id, _ := m.GetHeaderValue("Call-ID")
+					count[fmt.Sprintf("%v", id)]++
+				}
+				var lost, dup []string
+				for i := 0; i < n; i++ {
+					c := count["burst-"+a[1]+"-"+strconv.Itoa(i)]
+					if c == 0 {
+						lost = append(lost, strconv.Itoa(i))
+					} else if c > 1 {
+						dup = append(dup, strconv.Itoa(i))
+					}
+				}
+				if len(lost) == 0 && len(dup) == 0 && len(got)-1 == n {
+					return "ok n=" + a[0] + " each-once"
+				}
+				return "ok n=" + a[0] + " lost=[" + strings.Join(lost, ",") + "] duplicated=[" + strings.Join(dup, ",") + "] delivered=" + strconv.Itoa(len(got)-1)
 			}
 		}
 	})
